@@ -15,7 +15,9 @@ Four families of models (one model = one generated layout x one clock mode):
   limits    <p>_min, <p>_max, both, <p>_limits (automatic TupleOf), <p>_limits typed LimitsType on int / float / scaled
             base parameters (custom parameter x and predefined target), limits optionally preset by configuration; class
             layout: limits declared in the class of the base parameter / in a subclass / in a mixin, the ancestor with or
-            without a hand-written check_<p> hook (accepting everything / refusing one value)
+            without a hand-written check_<p> hook (accepting everything / refusing one value); limits coming from a plain
+            mixin / a Feature class and redeclared in the module class (Limit(value=..) again / bare value / by cfg only),
+            the module class with or without its own non-terminating check_<p>, with or without a sibling defined earlier
   control   1-3 HasOutputModule controllers on one HasControlledBy output (+ optionally one controller without output);
             nodes with 2-3 such outputs, each with its own 1-2 controllers; controllers whose set_control_active override
             writes the output when switched off (re-entrant hand-over) and / or fails to switch off / on (toggled)
@@ -95,6 +97,7 @@ from vf import core, nodes
 
 import frappy.modulebase
 from frappy.core import FloatRange, IntRange, Module, Parameter, ScaledInteger, Writable
+from frappy.modulebase import Feature
 from frappy.datatypes import LimitsType
 from frappy.errors import CommunicationFailedError, HardwareError, RangeError, SECoPError
 from frappy.extparams import FloatEnumParam, StructParam
@@ -774,13 +777,42 @@ class LimitsModel(Model):
                 if hook == 'refuse0' and value == 0:
                     raise RangeError('zero is not allowed')
             ns['check_' + base] = check_hook
-        clsname = f'Lim_{kind}_{layout}_{base}_{where}_{hook}'
+        # the module class may redeclare the limits it inherits (to give them a start value): 'limit' = Limit(value=..)
+        # again, 'bare' = bare value override; it may have its own check_<p> that does not end the checking (refuses 0);
+        # a sibling module class built from the same mixin may have been defined before it
+        self.redeclare = redeclare = s.get('redeclare')
+        self.ownhook = ownhook = bool(s.get('ownhook'))
+        start = {base + '_min': -5, base + '_max': 5, base + '_limits': (-5, 5)}
+        leaf = {}
+        if redeclare == 'bare':
+            # (a Limit() without a description of its own can not be overridden by a bare value: the node refuses to start
+            # with 'description needs a value' - not a subject of this property; the inherited limits get a description)
+            for limname in list(lim):
+                lim[limname] = Limit('limit declared in the mixin', **({'datatype': lim[limname].datatype, 'default': (-10, 10)}
+                                                                      if layout == 'limitstype' else {}))
+        if redeclare:
+            for limname in lim:
+                leaf[limname] = Limit(value=start[limname]) if redeclare == 'limit' else start[limname]
+        if ownhook:
+            def check_own(self, value):
+                if value == 0:
+                    raise RangeError('zero is not allowed')
+            leaf['check_' + base] = check_own
+        clsname = f'Lim_{kind}_{layout}_{base}_{where}_{hook}_{redeclare}_{ownhook}_{bool(s.get("sibling"))}'
         if where == 'same':
             self.cls = type(clsname, bases, dict(ns, **lim))
         elif where == 'subclass':
             self.cls = type(clsname, (type(clsname + '_Base', bases, ns),), lim)
-        else:   # mixin: a plain class carrying the limits, listed before the class of the base parameter
-            self.cls = type(clsname, (type(clsname + '_Mixin', (), lim), type(clsname + '_Base', bases, ns)), {})
+            if leaf:
+                self.cls = type(clsname + '_Leaf', (self.cls,), leaf)
+        else:
+            # mixin: a plain class carrying the limits, listed before the class of the base parameter;
+            # feature: the same as a frappy Feature (a HasAccessibles class without the base parameter)
+            holder = type(clsname + '_Mixin', (Feature,) if where == 'feature' else (), lim)
+            baseclass = type(clsname + '_Base', bases, ns)
+            if s.get('sibling'):
+                type(clsname + '_Sibling', (holder, baseclass), {})
+            self.cls = type(clsname, (holder, baseclass), leaf)
         self.preset = {}
         if preset:
             if 'min' in self.limparams:
@@ -844,6 +876,9 @@ class LimitsModel(Model):
             return world.client('change', 'm', attr, w)
         v = tuple(op[3]) if isinstance(op[3], list) else op[3]
         if what == 'w':
+            if not hasattr(mod, 'write_' + attr):
+                # (a limit overridden by a bare value comes out readonly: there is nothing for the driver to call)
+                return ['err', 'no-write-method', None]
             return world.driver(getattr(mod, 'write_' + attr), v)
         return world.driver(setattr, mod, attr, v)
 
@@ -866,7 +901,7 @@ class LimitsModel(Model):
         bkey = f'm:{self.base}'
         # the signature names the branch of the limit check (separate min / max or the pair), not the base datatype
         tag = 'limits:' + ('min-max' if self.layout in ('min', 'max', 'both') else 'pair') \
-            + (':with-inherited-check-hook' if self.hook else '')
+            + (':with-inherited-check-hook' if self.hook else '') + (':with-own-check-hook' if self.ownhook else '')
         if op[1] == 'w' and op[2] == 'X':
             lo, hi = self.current_limits(pre)
             vw = wire(self.kind, op[3])
@@ -888,9 +923,9 @@ class LimitsModel(Model):
                 if v is not None and v[0] == 'ok' and pre[bkey][1] is None and v[1] != pre[bkey][0]:
                     found.append((f'{tag}:write-base:refused-but-update-sent',
                                   f'write {self.base} = {op[3]!r} was refused ({res[1]}) but the client was sent {v[1]!r}'))
-            if not found and self.hook == 'refuse0' and op[3] == 0 and res[0] == 'ok':
+            if not found and (self.hook == 'refuse0' or self.ownhook) and op[3] == 0 and res[0] == 'ok':
                 found.append((f'{tag}:write-base:hand-written-check-not-honoured',
-                              f'write {self.base} = 0 accepted although check_{self.base} of the ancestor class refuses 0'))
+                              f'write {self.base} = 0 accepted although a hand-written check_{self.base} refuses 0'))
         if op[1] == 'w' and op[2] == 'limits' and op[3][0] > op[3][1]:
             lkey = f'm:{self.base}_limits'
             if self.layout == 'limitstype':
@@ -928,6 +963,24 @@ def limits_specs(tier):
                                           ('subclass', 'accept', 'both', 'x'), ('mixin', None, 'limits', 'target')):
             res.append(dict(family='limits', base='scaled' if name == 'x' else 'float', layout=layout, name=name,
                             preset=True, where=where, hook=hook))
+    # limits redeclared in the module class (with a start value) x own check hook x kind of the class they come from x
+    # a sibling module class defined earlier
+    if tier == 'quick':
+        rows = [('mixin', 'limit', True, False, 'limits'), ('mixin', 'limit', True, False, 'both'),
+                ('mixin', 'bare', True, False, 'min'), ('feature', 'limit', True, False, 'limits'),
+                ('mixin', 'limit', True, True, 'limits'), ('mixin', 'limit', False, False, 'max'),
+                ('subclass', 'bare', True, False, 'limits'), ('feature', None, True, False, 'both')]
+    else:
+        rows = [(w, r, h, sib, lay) for w in ('mixin', 'feature', 'subclass') for r in ('limit', 'bare', None)
+                for h in (True, False) for sib in ((False, True) if w != 'subclass' else (False,))
+                for lay in ('min', 'max', 'both', 'limits') if r or h or w == 'feature']
+    for where, redeclare, ownhook, sibling, layout in rows:
+        res.append(dict(family='limits', base='float', layout=layout, name='x', preset=False, where=where, hook=None,
+                        redeclare=redeclare, ownhook=ownhook, sibling=sibling))
+    if tier == 'thorough':   # start values by configuration only
+        for where in ('mixin', 'feature'):
+            res.append(dict(family='limits', base='float', layout='limits', name='x', preset=True, where=where, hook=None,
+                            redeclare=None, ownhook=True, sibling=False))
     # no callbacks hang on limit parameters, so the clock mode matters least here: quick runs the slow clock only
     return [dict(r, clock=c) for r in res for c in (('slow',) if tier == 'quick' else ('slow', 'fast'))]
 
